@@ -223,6 +223,8 @@ def facts : Facts := {
   rollbackOnFailedBuild := true
   buildProtocol := true
   unknownIndexProtocol := true
+  decodeInputWriteSites := 0
+  decodeInputWriteSiteList := []
   encodeForeignWriteSites := 0
   encodeForeignWriteSiteList := []
   descriptorWriteSites := 0
